@@ -106,6 +106,10 @@ class SimE(Simulator):
             if rng.random() < 0.15:
                 ops.append(["user", rng.choice(CONTROL)])     # two requests in one gap
             dt = rng.choice(DTS_JITTER) if jitter else 0.1
+            if c in ("Stop", "Restart") and rng.random() < 0.35:
+                # a flag command in the window in which the Stop / Restart is under way (it takes more than one tick)
+                ops.append(["tick", rng.choice([1, 1, 2]), dt])
+                ops.append(["user", rng.choice(["Pause", "Hold", "Pause", "Hold", "Unpause", "Unhold"])])
             ops.append(["tick", rng.choice([1, 1, 2, 3, 4, 6, 12]), dt])
             r = rng.random()
             if r < 0.2:
@@ -474,7 +478,12 @@ class SimE(Simulator):
             ops.append(["tick", rng.choice([1, 2, 3, 5, 8]), rng.choice([0.1, 0.1, 0.05, 0.5])])
             r = rng.random()
             if r < 0.3:
-                ops.append(["inject", rng.choice(junk)])
+                if rng.random() < 0.25:
+                    # a longer snippet whose faulty line comes late (its line number lies beyond a short method)
+                    good = [f"Mark: j{i}" for i in range(rng.randint(2, 9))]
+                    ops.append(["inject", "\n".join(good + [rng.choice(junk).replace("\\n", "\n")])])
+                else:
+                    ops.append(["inject", rng.choice(junk)])
             elif r < 0.5:
                 ops.append(["user", rng.choice(CONTROL + ["Set1", "Nope", ""])])
             elif r < 0.6:
